@@ -1,6 +1,6 @@
 (* Props/C18.v — Input stream sequencing follows the role's order exactly.
    Only statements.  Model: Parser/StreamModel.v (cmp_input_streams, set_stream of src/parser/stream.rs). *)
-From FV Require Import Base.Bytes Gen.Generated Codec.Header Parser.ReqModel Parser.StreamModel Parser.StreamSeqProofs.
+From FV Require Import Base.Bytes Gen.Generated Codec.Header Parser.ReqModel Parser.StreamModel Parser.StreamSeqProofs Parser.ReqWire Parser.ReqTargets Parser.AbsStream Parser.StreamSpec Parser.StreamRefine Parser.StreamInv Parser.StreamFinal.
 
 (* finite part, decided inside Coq over the whole domain stated here:
    all roles x requested {Stdin, Data} x current selection {none, any stream of the role} *)
@@ -45,3 +45,91 @@ Example C18_example : cmp_input_streams ROLE_Filter RT_Data (Some RT_Stdin) = So
   /\ cmp_input_streams ROLE_Responder RT_Data (Some RT_Stdin) = Some Lt
   /\ cmp_input_streams ROLE_Filter RT_Stdin None = Some Lt.
 Proof. repeat split; reflexivity. Qed.
+
+(* ==== pinned from the proof files (tools/write_props.py) ==== *)
+
+(* an accepted set_stream on ANY reachable state: request, buffer size, pending output, raw input, all replies
+   and all stream contents are untouched; re-selecting the current stream changes nothing at all; a change
+   empties the stream buffer and from then on the content is that of the newly selected stream, computed from
+   the same bytes *)
+Theorem C18_set_stream_effect :
+  forall (maxc : N) (p : sp) (s : option N) (p' : sp),
+  sp_inv p ->
+  set_stream p s = SetOk p' ->
+  sp_inv p' /\
+  sreq p' = sreq p /\
+  len (buffer p') = len (buffer p) /\
+  output_buffer p' = output_buffer p /\
+  raw_bytes p' = raw_bytes p /\
+  (forall u : bytes, R maxc (abs p') u = R maxc (abs p) u) /\
+  (forall (sg : option N) (u : bytes), F sg (abs p') u = F sg (abs p) u) /\
+  (optN_eqb s (stream p) = true -> p' = p) /\
+  (optN_eqb s (stream p) = false ->
+   stream p' = s /\ stream_buffer p' = [] /\ (forall u : bytes, K (abs p') u = F s (abs p) u)).
+Proof. exact set_stream_call. Qed.
+
+(* a later stream of the role can always be selected *)
+Theorem C18_later_selectable :
+  forall (p : sp) (sg : N),
+  sp_inv p ->
+  later_stream (abs p) sg ->
+  exists p' : sp, set_stream p (Some sg) = SetOk p' /\ optN_eqb (Some sg) (stream p) = false.
+Proof. exact set_stream_later. Qed.
+
+(* MAIN (full statement): any schedule, then set_stream(later stream), then any schedule: everything delivered
+   in the second epoch is content of the newly selected stream and of no other (F of the ORIGINAL state over
+   all bytes fed in both epochs), and the replies are conserved across the switch *)
+Theorem C18_only_active :
+  forall (maxc : N) (p0 : sp) (sg : N) (ops1 ops2 : list cop) (u : bytes),
+  sp_inv p0 ->
+  later_stream (abs p0) sg ->
+  csched_legal maxc p0 ops1 ->
+  exists p1 : sp,
+    set_stream (cfinal maxc p0 ops1) (Some sg) = SetOk p1 /\
+    (csched_legal maxc p1 ops2 ->
+     let pf := cfinal maxc p1 ops2 in
+     cno_panic maxc p0 ops1 /\
+     cno_panic maxc p1 ops2 /\
+     sp_inv pf /\
+     stream pf = Some sg /\
+     sreq pf = sreq p0 /\
+     cdelivered maxc p1 ops2 ++ stream_buffer pf ++ coming pf u =
+     F (Some sg) (abs p0) (cfed ops1 ++ cfed ops2 ++ u) /\
+     cemitted maxc p0 ops1 ++ cemitted maxc p1 ops2 ++ output_buffer pf ++ replies_coming maxc pf u =
+     output_buffer p0 ++ replies_coming maxc p0 (cfed ops1 ++ cfed ops2 ++ u)).
+Proof. exact C18_only_active. Qed.
+
+(* ... read record by record from the wire *)
+Theorem C18_only_active_records :
+  forall (maxc : N) (rp : parser) (r : req) (sp0 : sp) (sg : N) (rs : list rcd) 
+    (t : list N) (ops1 ops2 : list cop) (u : list N),
+  parser_ok rp ->
+  st rp = Done r ->
+  into_stream_parser rp = inl sp0 ->
+  later_stream (abs sp0) sg ->
+  Forall rcd_ok rs ->
+  held rp ++ cfed ops1 ++ cfed ops2 ++ u = enc_rcds rs ++ t ->
+  csched_legal maxc sp0 ops1 ->
+  exists p1 : sp,
+    set_stream (cfinal maxc sp0 ops1) (Some sg) = SetOk p1 /\
+    (csched_legal maxc p1 ops2 ->
+     let pf := cfinal maxc p1 ops2 in
+     let role := r_role r in
+     let id := r_id r in
+     let whole :=
+       content_rcds role id (Some sg) rs ++
+       (if content_open role id (Some sg) rs then CF role id (Some sg) false 0 0 t else []) in
+     cno_panic maxc p1 ops2 /\
+     sp_inv pf /\
+     stream pf = Some sg /\
+     cdelivered maxc p1 ops2 ++ stream_buffer pf ++ coming pf u = whole /\
+     (raw_bytes pf ++ u = [] \/ stream_at_end pf = true ->
+      cdelivered maxc p1 ops2 ++ stream_buffer pf = whole)).
+Proof. exact C18_only_active_rcds. Qed.
+
+(* cmp_input_streams agrees with the readable order spec_cmp for EVERY role value *)
+Theorem C18_cmp_all_roles :
+  forall (role t : N) (sg : option N),
+  is_input_stream t = true -> sel_ok sg -> cmp_input_streams role t sg = Some (spec_cmp role t sg).
+Proof. exact cmp_spec_all. Qed.
+
